@@ -6,7 +6,8 @@ files whose outputs exceed the 8 KiB BufWriter).
 
 Run: python3 tools/make_extra.py   (reads corpus/items.json for the format templates)
 """
-import json, os
+import json, os, sys
+sys.path.insert(0, os.path.dirname(os.path.abspath(__file__)))
 
 ROOT = os.path.join(os.path.dirname(os.path.abspath(__file__)), '..', 'corpus')
 fmts = json.load(open(os.path.join(ROOT, 'items.json')))['formats']
@@ -879,6 +880,55 @@ meta {
 ''' % (''.join('        %d: {script: "s%d"},\n' % (i, i) for i in range(24)),
        ''.join('script s%d {\n%s}\n' % (i, ''.join('    +%d: textSet(0, %d, "message number %d of script %d, padded to be long enough");\n' % (j + 1, j % 2, j, i) for j in range(8))) for i in range(24)))
 add('big/msg-many-scripts', 'MSG_06', full=big_msg, tags=['big'])
+
+# --- findings first seen on generated programs, kept as small hand-written items
+# (a) TH06-09 STD: an instruction whose signature is not 12 bytes of arguments
+add('feature/std08-signature-not-12-bytes', 'STD_08', mapfiles=['!stdmap\n!ins_signatures\n700 S\n701 SSSS\n'], main_body='''
+    ins_700(1);
++10:
+    ins_701(1, 2, 3, 4);
+''')
+# (b) count jump of the `--x > 0` kind as the condition of a forward jump (if-block recovery must not negate it)
+for fmt in ['ECL_06', 'ECL_07', 'ECL_08']:
+    add('feature/%s-countjmp-forward' % fmt.lower().replace('_', ''), fmt, main_body='''
+    if (--I1 > 0) goto skip;
+    nop();
++10:
+    nop();
+skip:
+    if (--I2 > 0) goto other;
+    nop();
+    goto end;
+other:
+    nop();
+end:
+    nop();
+''')
+# (c) string with an embedded NUL in a masked furibug string argument (TH12+ MSG text): the masked NUL is stored,
+#     decompile cuts the string there without a warning (it cannot tell it from furigana-bug garbage)
+add('feature/msg12-furibug-embedded-nul', 'MSG_12', main_body='''
+    textAdd("ab\\0cd");
++10:
+    textAdd("tail");
+''')
+add('feature/msg06-embedded-nul', 'MSG_06', full='''
+#pragma mapfile "map/any.msgm"
+meta { table: { 0: {script: "main"} } }
+script main {
+    textSet(0, 0, "ab\\0cd");
+}
+''')
+
+# --- seeded generated programs (tools/gen_programs.py): ids gen/<profile>-<k>, tag 'gen'
+import gen_programs
+for g in gen_programs.generate():
+    f = fmts[g['fmt']]
+    items.append({
+        'kind': 'source', 'id': g['id'], 'format': g['fmt'], 'cmd': f['cmd'], 'game': f['game'],
+        'mapfiles': [g['mapfile']], 'compile_mapfiles': [], 'decompile_mapfiles': [],
+        'compile_args': [], 'decompile_args': [],
+        'source': src(g['fmt'], main_body=g['main_body'], items=g['items'], full=g['full']), 'files': {}, 'tags': ['gen'],
+    })
 
 json.dump({'items': items}, open(os.path.join(ROOT, 'extra.json'), 'w'), indent=1, ensure_ascii=False)
 print(len(items), 'extra items')
